@@ -185,3 +185,86 @@ def document(rng, feats=ALL_FEATS, heights=(40, 50, 60, 80, 100, 150, 200, 35, 4
     html = ('<style>@page{size:%dpx %dpx; margin:0} %s html{font-family:weasyprint;font-size:10px;line-height:10px}'
             'body{margin:0} p,ul,ol{margin:0} td{padding:0}</style>' % (W, H, fn_css)) + body
     return html, g.leaves, H
+
+
+def split_document(rng):
+    """Documents whose tables and multi-column boxes are SPLIT over three pages or more: table rows whose cells hold
+    several paragraphs (some tall and unbreakable, some wrapping one word per line) next to short cells, with or
+    without thead/tfoot, separate or collapsed borders; multi-column boxes with `column-span: all` children, blocks
+    that avoid breaks and blocks taller than the room left, after some content on the page."""
+    g = G(rng, set())
+    H = rng.choice([24, 30, 40, 50, 60, 80])
+    W = rng.choice([160, 200, 240])
+    parts = []
+
+    def cell_content(ctx):
+        out = []
+        for _ in range(rng.choice([1, 1, 2, 3])):
+            ws = g.words(rng.choice([1, 2, 3, 5]))
+            g.leaf(ws, 'para', ctx)
+            st = []
+            r = rng.random()
+            if r < 0.2:
+                st.append('font-size:%dpx;line-height:%dpx' % ((rng.choice([7, 14, 20]),) * 2))
+            elif r < 0.3:
+                st.append('break-inside:avoid')
+            if rng.random() < 0.2:
+                st.append('padding-bottom:%dpx' % rng.choice([3, 8]))
+            out.append('<p style="margin:0;%s">%s</p>' % (';'.join(st), ' '.join(ws)))
+        return ''.join(out)
+
+    def table():
+        ncols = rng.choice([2, 2, 3])
+        rows = []
+        for _ in range(rng.choice([1, 1, 2, 3])):
+            cells = []
+            for c in range(ncols):
+                if rng.random() < 0.25:
+                    ws = g.words(1)
+                    g.leaf(ws, 'cell', ['split', 'table'])
+                    cells.append('<td>%s</td>' % ws[0])
+                else:
+                    cells.append('<td style="%s">%s</td>' % (rng.choice(['', '', 'padding-bottom:3px', 'border:2px solid']),
+                                                          cell_content(['split', 'table', 'cell'])))
+            rows.append('<tr>%s</tr>' % ''.join(cells))
+        head = foot = ''
+        if rng.random() < 0.6:
+            ws = g.words(1)
+            g.leaf(ws, 'cell', ['split', 'table', 'thead'], repeat=True)
+            head = '<thead><tr><th colspan=%d>%s</th></tr></thead>' % (ncols, ws[0])
+        if rng.random() < 0.3:
+            ws = g.words(1)
+            g.leaf(ws, 'cell', ['split', 'table', 'tfoot'], repeat=True)
+            foot = '<tfoot><tr><td colspan=%d>%s</td></tr></tfoot>' % (ncols, ws[0])
+        return ('<table style="border-spacing:0;width:100%%;table-layout:fixed;border-collapse:%s">%s%s<tbody>%s</tbody></table>'
+                % (rng.choice(['separate', 'collapse']), head, foot, ''.join(rows)))
+
+    def columns():
+        kids = []
+        for _ in range(rng.choice([2, 3, 5, 7])):
+            r = rng.random()
+            ws = g.words(rng.choice([1, 2, 3, 4]))
+            if r < 0.25:
+                g.leaf(ws, 'para', ['split', 'columns', 'span'])
+                kids.append('<h4 style="column-span:all;margin:0;font-size:10px;font-weight:normal">%s</h4>' % ' '.join(ws))
+            elif r < 0.5:
+                g.leaf(ws, 'para', ['split', 'columns', 'avoid'])
+                kids.append('<section style="break-inside:avoid">%s</section>' % '<br>'.join(ws))
+            else:
+                g.leaf(ws, 'para', ['split', 'columns'])
+                kids.append('<p style="margin:0">%s</p>' % ' '.join(ws))
+        return '<div style="columns:%d;column-gap:4px">%s</div>' % (rng.choice([2, 3]), ''.join(kids))
+
+    for _ in range(rng.choice([1, 2, 3])):
+        r = rng.random()
+        if r < 0.3:
+            ws = g.words(rng.choice([1, 2, 4]))
+            g.leaf(ws, 'para', ['split'])
+            parts.append('<p style="margin:0">%s</p>' % '<br>'.join(ws))
+        elif r < 0.7:
+            parts.append(table())
+        else:
+            parts.append(columns())
+    html = ('<style>@page{size:%dpx %dpx; margin:0} html{font-family:weasyprint;font-size:10px;line-height:10px}'
+            'body{margin:0} td,th{padding:0;font-weight:normal;text-align:left}</style>' % (W, H)) + ''.join(parts)
+    return html, g.leaves, H
